@@ -31,4 +31,9 @@ class WithDims(Transform):
     def _apply(self, x, **kwargs):
         # if self.dims is a single number we will return an array with the
         # spatial dimension missing - always reshape to avoid this case.
-        return x[:, self.dims].reshape([x.shape[0], -1]).copy()
+        # (done with an explicit axis rather than reshape(-1), which numpy
+        # cannot infer for an array without points)
+        y = x[:, self.dims]
+        if y.ndim == 1:
+            y = y[:, None]
+        return y.copy()
